@@ -479,6 +479,33 @@ def r01_11_loop_stack(ctx):
     ctx.require_min("R01.11", 7)
 
 
+def r01_12_maybe_value(ctx):
+    ctx.rule("R01.12", "MaybeValue follows the AVM convention of `..._get` ops (value below, did-exist flag on top): output types [T, uint64], value() / slotValue read output slot 0, hasValue() / slotOk read output slot 1; every op used through MaybeValue pushes exactly (value, uint64 flag)")
+    c = ctx.model.find_class("MaybeValue", "pyteal.ast.maybe")
+    init = c.methods["__init__"]
+    types = [d for d in q.assigns_to(init.node, "types")]
+    ctx.check(len(types) == 1 and u(types[0]) == f"[{init.params()[2]}, TealType.uint64]", "R01.12", "MaybeValue:types", f"output types must be [value type, uint64]; found {u(types[0]) if types else None}", init.where, fact={})
+    want = {"value": ("0", "0"), "hasValue": ("1", "1"), "slotValue": ("0", None), "slotOk": ("1", None)}
+    for name, (slot_i, type_i) in want.items():
+        m = q.need(c.methods.get(name), f"MaybeValue.{name} vanished")
+        rets = q.returns_of(m.node)
+        txt = u(rets[0].value) if len(rets) == 1 else ""
+        exp = f"self.output_slots[{slot_i}]" + (f".load(self.types[{type_i}])" if type_i is not None else "")
+        ctx.check(txt == exp, "R01.12", f"MaybeValue.{name}", f"MaybeValue.{name} must be {exp}; found {txt}", m.where, fact={"returns": txt})
+    S = get_sites(ctx.model)
+    n = 0
+    for site in S.factory_sites:
+        if site.cls.name != "MaybeValue":
+            continue
+        for op in site.ops:
+            sig = S.sig(op)
+            if sig is None:
+                continue
+            n += 1
+            ctx.check(len(sig["pushes"]) == 2 and sig["pushes"][1] == "u", "R01.12", f"{site.construct}:{op}:pushes", f"'{S.teal_name(op)}' pushes {sig['pushes']}; a MaybeValue op must push (value, uint64 flag)", site.where, fact={"pushes": sig["pushes"]})
+    ctx.require_min("R01.12", 20)
+
+
 def run(ctx):
     r01_3_wiring(ctx)
     r01_1_operands(ctx)
@@ -489,6 +516,14 @@ def run(ctx):
     r01_8_api_ops(ctx)
     r01_10_routine_epilogue(ctx)
     r01_11_loop_stack(ctx)
+    r01_12_maybe_value(ctx)
+    from rules import c03 as _c03, c10 as _c10
+
+    # scratch variables are part of the denoted semantics: the allocator must not alias them and the optimiser must not change them
+    _c10.r10_1_assignment(ctx)
+    _c03.r03_1_skip_set(ctx)
+    _c03.r03_2_dependency_scan(ctx)
+    _c03.r03_3_cancellation(ctx)
     return (
         "Def-use edge facts of every control construct's __teal__ compared with a reference lowering (R01.3); operand order/arity at "
         "emission sites and factories (R01.1); finite abstract evaluation of flattenBlocks' branch emission over all successor "
